@@ -37,7 +37,7 @@ func (m *ModelServer) ListWasteRecords(ctx context.Context, req *traits.ListWast
 	if pageToken != "" {
 		_, err := strconv.Atoi(req.GetPageToken())
 		if err != nil {
-			return nil, err
+			return nil, status.Errorf(codes.InvalidArgument, "bad page token: %v", err)
 		}
 		startIndex, _ = strconv.Atoi(pageToken)
 		if startIndex < 0 || startIndex > m.model.GetWasteRecordCount() {
